@@ -135,18 +135,21 @@ class Tracker(Monitor):
         produced = self.w.now
         if 'forced' not in event and source is not None:
             produced = event['now_monotonic'] - self.w.spec_of(source).get('mono_off', 0.0) + 1_700_000_000.0
-        self.received[(inst.nick, inst.inc, source, namespec)] = (self.w.now, event['state'], produced)
+        history = self.received.setdefault((inst.nick, inst.inc, source, namespec), [])
+        history.append((self.w.now, event['state'], produced))
+        del history[:-6]
 
     def judged_on_older_event(self, req, states):
         """ The requester has received, since it emitted this request, an event of that process in one of the given
         states that was produced before the request was delivered (or while it is still undelivered): it belongs to an
         earlier start / stop cycle (another requester, an earlier plan) and cannot be the answer to this request. """
-        got = self.received.get((req['sender'], req['inc'], req['target_nick'], req['namespec']))
         early = req.get('early_event')
         if early and early[1] in states:
             return True
-        if got and got[0] >= req['t'] and got[1] in states:
-            return req['delivered'] is None or got[2] < req.get('delivered_t', 0.0)
+        for got in self.received.get((req['sender'], req['inc'], req['target_nick'], req['namespec']), ()):
+            if got[0] >= req['t'] and got[1] in states and \
+                    (req['delivered'] is None or got[2] < req.get('delivered_t', 0.0)):
+                return True
         return False
 
     def epoch_of(self, inst_nick, inc, app):
@@ -619,9 +622,16 @@ class AgreementMonitor(Monitor):
         # a state forced by an instance that does not see (all) the Supervisors where the process truly runs
         w = self.run.world
         view = self.peer_view.get((inst.nick, inst.inc), {})
+        try:
+            listed = set(peek(w, inst.nick, 'supvisors.get_process_info', process.namespec)[0]['identifiers'])
+        except (Fault, IndexError):
+            listed = set()
+        # the copies that truly run and that the forcer does not know of: their instance is not seen active
+        # (handshake in progress) or their STARTING / RUNNING events are still in flight
         blind = [other.nick for other in w.live()
-                 if other.running_truth().get(process.namespec) in RUNNING_STATES
-                 and other.nick != inst.nick and view.get(other.identifier, 'STOPPED') not in ('CHECKED', 'RUNNING')]
+                 if other.running_truth().get(process.namespec) in RUNNING_STATES and other.nick != inst.nick
+                 and (view.get(other.identifier, 'STOPPED') not in ('CHECKED', 'RUNNING')
+                      or other.identifier not in listed)]
         if blind and int(forced_state) not in RUNNING_STATES:
             self.blind_forced.setdefault(process.namespec, []).append((vt(w), inst.nick, blind))
             self.count('forced_states_without_seeing_the_host')
@@ -636,7 +646,7 @@ class AgreementMonitor(Monitor):
             return ''
         if process.forced_state is not None and process.forced_state not in RUNNING_STATES and \
                 process.state in RUNNING_STATES and self.blind_forced.get(namespec):
-            return ':state-forced-by-an-instance-not-seeing-the-host'
+            return ':state-forced-over-a-running-copy-unknown-to-the-forcer'
         return ''
 
     def on_instance_state(self, inst, identifier, new_state):
@@ -991,6 +1001,7 @@ class JobTerminationMonitor(Monitor):
         run.on_tick.append(self.on_tick)
         run.world.listeners.append(self.on_event)
         self.tracker.listeners_forced.append(self.on_forced)
+        run.world.on_hook('instance_state', self.on_invalidation)
         self.flag_since = {}     # (nick, inc, kind) -> vt since the flag is continuously reported
         self.reported = set()
         self.pending_forced = []
@@ -1006,6 +1017,13 @@ class JobTerminationMonitor(Monitor):
         self.left_running = {}
         self.state_since = {}
         self.has_wait_exit = any(p.get('wait_exit') for p in progs)
+
+    def on_invalidation(self, inst, identifier, new_state):
+        # the invalidation of an instance rewrites the entries of the processes it ran (and resets a forced state):
+        # for the observer that is an event of those processes
+        if new_state.name in ('STOPPED', 'ISOLATED'):
+            for rec in self.pending_forced:
+                rec['overtaken'] = True
 
     def last_request(self, inst, kind):
         pool = self.tracker.requests if kind == 'start' else self.tracker.stops
